@@ -324,17 +324,29 @@ def imm_typing_rule(ctx, R):
     meths = arch.methods('x86_mn')
     if 'arg_set_numpy_imm' not in meths:
         raise AnalysisError('x86_mn.arg_set_numpy_imm not found')
+
+    def sequence(fn, depth=0, seen=()):
+        """callee names in source order; calls of methods of the class (self.m / x86_mn.m / instr.m) are followed two levels deep"""
+        out = []
+        for st in fn.body:
+            for c in sorted((c for c in ast.walk(st) if isinstance(c, ast.Call) and isinstance(c.func, ast.Attribute)), key=lambda c: (c.lineno, c.col_offset)):
+                nm = c.func.attr
+                out.append(nm)
+                if nm in meths and nm not in ('arg_set_numpy_imm', 'asm_candidates') and depth < 2 and nm not in seen:
+                    out += sequence(meths[nm], depth + 1, seen + (nm,))
+        return out
     n_entry = 0
+    ac = meths.get('asm_candidates')
+    typed_inside = ac is not None and 'arg_set_numpy_imm' in sequence(ac)[:3]
     for name, fn in sorted(meths.items()):
-        calls = [(i, st) for i, st in enumerate(fn.body) for c in ast.walk(st) if isinstance(c, ast.Call) and isinstance(c.func, ast.Attribute) and c.func.attr == 'asm_candidates']
-        if not calls:
+        direct = [c for st in fn.body for c in ast.walk(st) if isinstance(c, ast.Call) and isinstance(c.func, ast.Attribute) and c.func.attr == 'asm_candidates']
+        if not direct:
             continue
         n_entry += 1
-        first = calls[0][0]
-        typed = [i for i, st in enumerate(fn.body[:first]) if isinstance(st, ast.Expr) and isinstance(st.value, ast.Call) and isinstance(st.value.func, ast.Attribute)
-                 and st.value.func.attr == 'arg_set_numpy_imm']
+        seq = sequence(fn)
+        first = seq.index('asm_candidates')
         inst = 'x86_mn.%s -> asm_candidates' % name
-        if typed or not depends:
+        if 'arg_set_numpy_imm' in seq[:first] or typed_inside or not depends:
             R.ok(inst, sample='%s: arg_set_numpy_imm precedes asm_candidates' % name)
         else:
             R.violation(inst, 'untyped-immediates:%s' % name, '%s passes the parsed operands to asm_candidates without arg_set_numpy_imm: check_imm_size gives the sign-extended imm8 '
